@@ -276,6 +276,33 @@ def run(cx):
         raise AnalysisError("_promote_branch_decls.record vanished")
     st = [n for n in walk_local(rec) if isinstance(n, ast.Assign) and norm(n.targets[0]) == "inferred[name]"]
     r.check(len(st) == 1 and "child_ctx.get('var_types', {}).get(name" in norm(st[0].value), "_promote_branch_decls/type-from-child-scope", (pm, rec), "a hoisted variable's label must be read from the branch scope that assigned it")
+    # ... and at every call the scope handed to record() is the scope whose new names are being recorded (the else arm has
+    # its own scope): the scope is a parameter of record(), never a free variable left over from an enclosing loop
+    rec_params = [a.arg for a in rec.args.args]
+    src_ctx = None
+    if st and isinstance(st[0].value, ast.Call):
+        base_ = st[0].value
+        while isinstance(base_, ast.Call) and isinstance(base_.func, ast.Attribute):
+            base_ = base_.func.value
+        src_ctx = base_.id if isinstance(base_, ast.Name) else None
+    r.check(src_ctx is not None and src_ctx in rec_params, "_promote_branch_decls/record-takes-the-assigning-scope-as-parameter", (pm, rec), f"record() reads the label from `{src_ctx}`, which is not one of its parameters {rec_params}: it would silently use whatever scope an enclosing loop last bound")
+    if src_ctx in rec_params:
+        pos = rec_params.index(src_ctx)
+        for c in walk_local(pb):
+            if isinstance(c, ast.Call) and call_name(c) == "record" and pm.enclosing_func(c) is pb:
+                loop_ = next((a for a in pm.ancestors(c) if isinstance(a, ast.For)), None)
+                names_src = None
+                if loop_ is not None:
+                    it_ = loop_.iter.args[0] if isinstance(loop_.iter, ast.Call) and call_name(loop_.iter) == "sorted" and loop_.iter.args else loop_.iter
+                    if isinstance(it_, ast.Name):
+                        # closest preceding assignment of the iterated name
+                        prev = [x for x in walk_local(pb) if isinstance(x, ast.Assign) and norm(x.targets[0]) == it_.id and (x.lineno, x.col_offset) < (c.lineno, c.col_offset)]
+                        if prev:
+                            last = max(prev, key=lambda x: (x.lineno, x.col_offset))
+                            names_ = {n_.id for n_ in ast.walk(last.value) if isinstance(n_, ast.Name)}
+                            names_src = names_
+                passed = norm(c.args[pos]) if len(c.args) > pos else None
+                r.check(passed is not None and names_src is not None and passed in names_src, "_promote_branch_decls/record-called-with-the-scope-of-its-names", (pm, c), f"`{stmt_key(c)}`: the names come from {sorted(names_src or [])} but the scope passed is {passed}")
     psl = pm.func("_parse_simple_lines")
     hoist = [n for n in walk_local(psl) if isinstance(n, ast.Assign) and norm(n.targets[0]) == "var_types[name]" and "child_types.get(name" in norm(n.value)]
     r.check(len(hoist) >= 2, "_parse_simple_lines/loop-hoist-type-from-child-scope", (pm, psl), "while/for hoisting must copy the label from the loop body's scope")
@@ -340,9 +367,10 @@ def run(cx):
     r = cx.rule("C02-EMIT", "the emitter writes the types the parser decided: every function overload is emitted (once) with its own parameter and return types, every declaration with its c_type; the list helper converts elements to the element type only", floor=12)
     S = cls["ReturnStmt"]
     fd = cls["FunctionDef"]
-    fns_ = [fd(name="scale", params=[("v", "int")], body=[S(expr="(v * 2)")], return_type="int"),
-            fd(name="scale", params=[("v", "float")], body=[S(expr="(v * 2)")], return_type="float"),
-            fd(name="scale", params=[("v", "String")], body=[S(expr="v")], return_type="String"),
+    VD = cls["VarDecl"]
+    fns_ = [fd(name="scale", params=[("v", "int")], body=[VD(name="out", c_type="int", expr="(v * 2)", global_scope=False), S(expr="out")], return_type="int"),
+            fd(name="scale", params=[("v", "float")], body=[VD(name="out", c_type="float", expr="(v * 2)", global_scope=False), S(expr="out")], return_type="float"),
+            fd(name="scale", params=[("v", "String")], body=[VD(name="out", c_type="String", expr="v", global_scope=False), S(expr="out")], return_type="String"),
             fd(name="pick", params=[("a", "float"), ("b", "int")], body=[S(expr="a")], return_type="float"),
             fd(name="pick", params=[("a", "int"), ("b", "float")], body=[S(expr="b")], return_type="float")]
     res = pe.emit_program(setup=[cls["ExprStmt"](expr="scale(1)")], functions=fns_)
@@ -352,6 +380,12 @@ def run(cx):
         hdr = f"{f_.return_type} {f_.name}(" + ", ".join(f"{t} {n}" for n, t in f_.params) + ")"
         cnt = res.text.count(hdr + " {")
         r.check(cnt == 1, f"emit/overload[{hdr}]-emitted-once", (em, em.func("emit")), f"`{hdr}` is defined {cnt} time(s): a call with these argument types would bind to another overload and convert its arguments")
+        # each overload has its own body (its locals were typed for *its* parameter types)
+        if cnt == 1 and f_.name == "scale":
+            seg = res.text[res.text.index(hdr + " {"):]
+            seg = seg[:seg.index("\n}") if "\n}" in seg else len(seg)]
+            want_local = f"{f_.params[0][1]} out ="
+            r.check(want_local in seg, f"emit/overload[{hdr}]-own-body", (em, em.func("emit")), f"the body emitted under `{hdr}` does not declare `{want_local} ...`: overloads share one rendered body, so a local keeps the type of another overload")
     for ct in ("int", "float", "bool", "String", "__redu_list<float>"):
         for place, kw in (("global", {"global_decls": [cls["VarDecl"](name="v", c_type=ct, expr="{}", global_scope=True)]}), ("setup", {"setup": [cls["VarDecl"](name="v", c_type=ct, expr="{}", global_scope=False)]}),
                           ("function", {"setup": [cls["ExprStmt"](expr="f()")], "functions": [fd(name="f", params=[], body=[cls["VarDecl"](name="v", c_type=ct, expr="{}", global_scope=False)], return_type="void")]})):
